@@ -106,6 +106,78 @@ impl ConfirmationActor {
         self.broadcast_tx.clone()
     }
 
+    /// Broadcasts the confirmed events of a partition that have not been broadcast yet
+    /// (from `next_broadcast_seq` up to the watermark), reading them from the database.
+    async fn broadcast_up_to_watermark(&mut self, partition_id: PartitionId) {
+        let watermark = self
+            .manager
+            .get_watermark(partition_id)
+            .map(|w| w.get())
+            .unwrap_or(0);
+
+        let next_to_broadcast = self.next_broadcast_seq.entry(partition_id).or_insert(0);
+
+        if watermark == 0 {
+            return;
+        }
+
+        let highest_confirmed_seq = watermark - 1;
+
+        if *next_to_broadcast <= highest_confirmed_seq {
+            let broadcast_from = *next_to_broadcast;
+            let broadcast_to = highest_confirmed_seq;
+
+            let mut broadcasted_count = 0;
+            let mut last_broadcast_seq = broadcast_from.saturating_sub(1);
+
+            if let Ok(mut iter) = self
+                .database
+                .read_partition(partition_id, broadcast_from, IterDirection::Forward)
+                .await
+            {
+                'outer: while let Ok(Some(commits)) = iter.next_batch(DEFAULT_BATCH_SIZE).await {
+                    for commit in commits {
+                        for event in commit {
+                            let p = event.partition_sequence;
+                            if event.partition_sequence >= broadcast_from
+                                && event.partition_sequence <= broadcast_to
+                            {
+                                match self.broadcast_tx.send(event.clone()) {
+                                    Ok(0) => {
+                                        // No active subscribers, stop broadcasting
+                                        // Don't update next_to_broadcast so we retry later
+                                        break 'outer;
+                                    }
+                                    Ok(_) => {
+                                        broadcasted_count += 1;
+                                        last_broadcast_seq = event.partition_sequence;
+                                    }
+                                    Err(_) => {
+                                        // Channel closed
+                                        break 'outer;
+                                    }
+                                }
+                            }
+
+                            if p > broadcast_to {
+                                break 'outer;
+                            }
+                        }
+                    }
+                }
+            }
+
+            // Only update next_to_broadcast if we successfully broadcast something
+            // and we're advancing forward
+            if broadcasted_count > 0 {
+                let new_next_to_broadcast = last_broadcast_seq + 1;
+                if new_next_to_broadcast > *next_to_broadcast {
+                    *next_to_broadcast = new_next_to_broadcast;
+                }
+            }
+        }
+    }
+
     fn broadcast_confirmed_events(
         &mut self,
         partition_id: PartitionId,
@@ -176,73 +248,7 @@ impl Message<UpdateConfirmationWithBroadcast> for ConfirmationActor {
             results.push(advanced);
         }
 
-        let watermark = self
-            .manager
-            .get_watermark(msg.partition_id)
-            .map(|w| w.get())
-            .unwrap_or(0);
-
-        let next_to_broadcast = self.next_broadcast_seq.entry(msg.partition_id).or_insert(0);
-
-        if watermark == 0 {
-            return Ok(results);
-        }
-
-        let highest_confirmed_seq = watermark - 1;
-
-        if *next_to_broadcast <= highest_confirmed_seq {
-            let broadcast_from = *next_to_broadcast;
-            let broadcast_to = highest_confirmed_seq;
-
-            let mut broadcasted_count = 0;
-            let mut last_broadcast_seq = broadcast_from.saturating_sub(1);
-
-            if let Ok(mut iter) = self
-                .database
-                .read_partition(msg.partition_id, broadcast_from, IterDirection::Forward)
-                .await
-            {
-                'outer: while let Ok(Some(commits)) = iter.next_batch(DEFAULT_BATCH_SIZE).await {
-                    for commit in commits {
-                        for event in commit {
-                            let p = event.partition_sequence;
-                            if event.partition_sequence >= broadcast_from
-                                && event.partition_sequence <= broadcast_to
-                            {
-                                match self.broadcast_tx.send(event.clone()) {
-                                    Ok(0) => {
-                                        // No active subscribers, stop broadcasting
-                                        // Don't update next_to_broadcast so we retry later
-                                        break 'outer;
-                                    }
-                                    Ok(_) => {
-                                        broadcasted_count += 1;
-                                        last_broadcast_seq = event.partition_sequence;
-                                    }
-                                    Err(_) => {
-                                        // Channel closed
-                                        break 'outer;
-                                    }
-                                }
-                            }
-
-                            if p > broadcast_to {
-                                break 'outer;
-                            }
-                        }
-                    }
-                }
-            }
-
-            // Only update next_to_broadcast if we successfully broadcast something
-            // and we're advancing forward
-            if broadcasted_count > 0 {
-                let new_next_to_broadcast = last_broadcast_seq + 1;
-                if new_next_to_broadcast > *next_to_broadcast {
-                    *next_to_broadcast = new_next_to_broadcast;
-                }
-            }
-        }
+        self.broadcast_up_to_watermark(msg.partition_id).await;
 
         Ok(results)
     }
@@ -368,7 +374,11 @@ impl Message<UpdateConfirmation> for ConfirmationActor {
                 .map(|w| w.get())
                 .unwrap_or(0);
 
+            // Events confirmed through this path (a replica's ConfirmTransaction) were never
+            // buffered in `pending_events`: broadcast them from the database like the
+            // coordinator path does, otherwise live subscribers never receive them
             self.broadcast_confirmed_events(msg.partition_id, old_watermark, new_watermark);
+            self.broadcast_up_to_watermark(msg.partition_id).await;
         }
 
         Ok(results)
